@@ -1,7 +1,209 @@
-//! C15 - placeholder, replaced below.
-use crate::model::Analysis;
-use crate::oracle::{Aux, Tally, Violation};
+//! C15 - STUN: binding requests get a success response reflecting the observed address.
 
-pub fn check(_a: &Analysis, _aux: &mut Aux, _t: &mut Tally) -> Vec<Violation> {
-    Vec::new()
+use std::net::IpAddr;
+
+use crate::apps::sig::{self, Decision};
+use crate::apps::stun;
+use crate::apps::App;
+use crate::model::Analysis;
+use crate::oracle::{Aux, Tally, Verdict, Violation};
+
+struct Case<'a> {
+    payload: &'a [u8],
+    reply: Option<&'a [u8]>,
+    reply_sport: Option<u16>,
+    src: IpAddr,
+    sport: u16,
+    dport: u16,
+    datagram: bool,
+    carrier: String,
+    idx: usize,
+}
+
+fn judge(c: &Case, sigs: &[sig::Sig], t: &mut Tally, v: &mut Vec<Violation>) {
+    let m = match stun::parse(c.payload) {
+        Some(m) => m,
+        None => return,
+    };
+    if c.payload[0] & 0xc0 != 0 {
+        return; // not STUN-shaped at all
+    }
+    let mut bad = |rule: &str, key: String, detail: String| {
+        v.push(Violation {
+            prop: "C15",
+            rule: rule.into(),
+            key,
+            step: c.idx,
+            detail,
+        });
+    };
+    let d = sig::decide(sigs, c.payload, c.datagram);
+    let identified = matches!(&d, Decision::Match { sig, .. } if sigs[*sig].app == App::Stun);
+    if !m.is_binding_request() {
+        return; // other classes / methods are judged by `judge_other` on identified flows
+    }
+    if !identified {
+        if d == Decision::NoMatch && c.datagram && !m.magic {
+            t.any("cookie-less-request-outside-the-two-published-forms");
+        } else if d == Decision::Ambiguous {
+            t.any("two-signatures-complete-together");
+        }
+        return;
+    }
+    if !m.len_matches || !m.tiles {
+        t.any("length-or-tlvs-inconsistent");
+        return;
+    }
+    if m.odd_change_requests() > 0 {
+        t.any("change-request-of-odd-size");
+        return;
+    }
+    let cp = m.change_port_count();
+    let signame = match &d {
+        Decision::Match { sig, .. } => sigs[*sig].name,
+        _ => "?",
+    };
+    t.judged(
+        Verdict::Reply,
+        format!("{}|{}|attrs{}|cp{}|sport{}", c.carrier, signame, m.attrs.len().min(3), cp.min(2), if c.sport == 65535 { "max" } else { "-" }),
+    );
+    if c.sport == 65535 {
+        t.probe("source-port-65535");
+    }
+    let r = match c.reply {
+        Some(r) if !r.is_empty() => r,
+        _ => {
+            let why = if m.magic && c.payload[2] == 0 { "rfc5389-length-below-256" } else { "other" };
+            bad(
+                "unanswered",
+                format!("unanswered:{}:{}", signame, why),
+                format!("binding request ({} form, {} attribute bytes) over {} was not answered", signame, m.len, c.carrier),
+            );
+            return;
+        }
+    };
+    let rm = match stun::parse(r) {
+        Some(rm) => rm,
+        None => {
+            bad("response-shape", "response-shape".into(), format!("reply of {} bytes is not a STUN message", r.len()));
+            return;
+        }
+    };
+    if rm.ty != 0x0101 {
+        bad("response-type", "response-type".into(), format!("response type {:#06x}, expected Binding Success 0x0101", rm.ty));
+    }
+    if rm.id != m.id {
+        bad("transaction-id", "transaction-id".into(), "response carries another transaction id".into());
+    }
+    if !rm.len_matches {
+        bad("response-length", "response-length".into(), format!("message length {} but {} bytes follow the header", rm.len, r.len() - 20));
+    }
+    match rm.attrs.iter().find(|(ty, _)| *ty == 1).and_then(|(_, val)| stun::mapped_address(val)) {
+        Some((fam, port, addr)) => {
+            let (wf, wa): (u8, Vec<u8>) = match c.src {
+                IpAddr::V4(a) => (1, a.octets().to_vec()),
+                IpAddr::V6(a) => (2, a.octets().to_vec()),
+            };
+            if fam != wf {
+                bad("mapped-family", "mapped-family".into(), format!("MAPPED-ADDRESS family {} for a request from {}", fam, c.src));
+            }
+            if port != c.sport {
+                bad("mapped-port", "mapped-port".into(), format!("MAPPED-ADDRESS port {}, the request came from port {}", port, c.sport));
+            }
+            if addr != wa {
+                bad("mapped-address", "mapped-address".into(), format!("MAPPED-ADDRESS {:?}, the request came from {}", addr, c.src));
+            }
+        }
+        None => bad("mapped-missing", "mapped-missing".into(), "response without a decodable MAPPED-ADDRESS".into()),
+    }
+    if let Some(rs) = c.reply_sport {
+        let want = if cp == 1 { c.dport.wrapping_add(1) } else { c.dport };
+        if cp <= 1 && rs != want {
+            bad("change-port", format!("change-port:{}", cp), format!("response sent from port {}, expected {} ({} change-port request)", rs, want, cp));
+        }
+        if cp == 1 && c.dport == 65535 {
+            t.probe("change-port-from-65535");
+        }
+    }
+}
+
+/// A message of another class or method on a flow/datagram the responder treats as STUN
+/// must not get a STUN response.
+fn judge_other(payload: &[u8], reply: Option<&[u8]>, idx: usize, t: &mut Tally, v: &mut Vec<Violation>) {
+    let m = match stun::parse(payload) {
+        Some(m) if m.top_bits_zero && m.len_matches && m.tiles => m,
+        _ => return,
+    };
+    if m.is_binding_request() {
+        return;
+    }
+    t.judged(Verdict::Silent, format!("other|class{}|method{}", m.class, if m.method == 1 { "binding".into() } else { format!("{:#x}", m.method.min(0x200) & 0xf81) }));
+    let stun_resp = reply
+        .and_then(stun::parse)
+        .map(|r| r.len_matches && (r.ty == 0x0101 || r.ty == 0x0111))
+        .unwrap_or(false);
+    if stun_resp {
+        v.push(Violation {
+            prop: "C15",
+            rule: "non-request-answered".into(),
+            key: format!("answered:class{}:{}", m.class, if m.method == 1 { "binding" } else { "other-method" }),
+            step: idx,
+            detail: format!("STUN message type {:#06x} (class {}, method {:#x}) drew a Binding Success Response", m.ty, m.class, m.method),
+        });
+    }
+}
+
+pub fn check(a: &Analysis, _aux: &mut Aux, t: &mut Tally) -> Vec<Violation> {
+    let mut v = Vec::new();
+    let sigs = sig::signatures();
+    for x in a.udp_exchanges() {
+        let s = &a.steps[x.si];
+        let c = Case {
+            payload: x.payload,
+            reply: x.reply,
+            reply_sport: s.reply.as_ref().and_then(|r| r.ports()).map(|p| p.0),
+            src: x.src,
+            sport: x.sport,
+            dport: x.dport,
+            datagram: true,
+            carrier: format!("udp{}", if x.v6 { 6 } else { 4 }),
+            idx: s.idx,
+        };
+        judge(&c, &sigs, t, &mut v);
+        judge_other(x.payload, x.reply, s.idx, t, &mut v);
+    }
+    for st in a.tcp_streams() {
+        if st.dirty || st.segs.is_empty() {
+            continue;
+        }
+        let s0 = &st.segs[0];
+        let p0 = &st.stream[..s0.len];
+        let v6 = matches!(st.flow.src, IpAddr::V6(_));
+        let whole = stun::parse(p0).map(|m| m.len_matches).unwrap_or(false);
+        let stun_flow = matches!(sig::decide(&sigs, p0, false), Decision::Match { sig, .. } if sigs[sig].app == App::Stun);
+        if whole {
+            let s = &a.steps[s0.si];
+            let c = Case {
+                payload: p0,
+                reply: s0.reply_app.as_deref(),
+                reply_sport: s.reply.as_ref().and_then(|r| r.ports()).map(|p| p.0),
+                src: st.flow.src,
+                sport: st.flow.sport,
+                dport: st.flow.dport,
+                datagram: false,
+                carrier: format!("tcp{}", if v6 { 6 } else { 4 }),
+                idx: s.idx,
+            };
+            judge(&c, &sigs, t, &mut v);
+        }
+        if stun_flow {
+            // later messages reach the STUN handler whatever they are
+            for sg in st.segs.iter().skip(1) {
+                let p = &st.stream[sg.off..sg.off + sg.len];
+                judge_other(p, sg.reply_app.as_deref(), a.steps[sg.si].idx, t, &mut v);
+                t.probe("second-message-on-stun-flow");
+            }
+        }
+    }
+    v
 }
